@@ -535,6 +535,8 @@ def main(argv):
     for sname, case, io, mo in zip(stream_names, raw_cases, impl_obs, model_obs):
         st = stats.setdefault(sname, dict(cases=0, agree=0, disagree=0))
         st['cases'] += 1
+        if isinstance(mo, list) and mo[:1] == [-3]:
+            st['model_gave_up'] = st.get('model_gave_up', 0) + 1
         key = canonical(case)
         distinct.add(key)
         try:
